@@ -1,0 +1,26 @@
+//go:build verif
+
+// Package verifhook provides named hook points for the verification harness.
+// With the build tag "verif" a callback installed by the harness is invoked at every hook point
+// (used to snapshot or kill the process at a crash point, to yield or to gate a goroutine).
+package verifhook
+
+import "sync/atomic"
+
+var callback atomic.Pointer[func(name string)]
+
+// Set installs (or with nil removes) the callback invoked by Hit
+func Set(f func(name string)) {
+	if f == nil {
+		callback.Store(nil)
+		return
+	}
+	callback.Store(&f)
+}
+
+// Hit marks a named point in the code
+func Hit(name string) {
+	if f := callback.Load(); f != nil {
+		(*f)(name)
+	}
+}
